@@ -35,6 +35,11 @@ CHECKS = {
     text="Programs with focus project (single / ordered-pair / reordered selections through rename, add_prefix/add_suffix with affixes that share characters with labels, merge suffix pairs, combine_first, concat, groupby / sort / set_index / drop_duplicates with implicit key columns) are TLC-generated; selections directly above merge, prefix/suffix, rename, combine_first, concat, groupby, set_index, sort, drop_duplicates, nlargest and assign are covered exhaustively. TLC validates every stage against the unoptimized query (clauses Columns, NoNewError, Rows) and, where QueryGen derives that the result columns are fixed by the query (sc.closed), that computing on inputs widened with unused columns gives the same result.",
     note="Trusted: TLC; unoptimized lowering as reference; the closed/tainted rules of spec/QueryGen.tla decide where the widening relation applies.",
     design="5.0 C04"),
+ "C02": dict(
+    technique="TLC-enumerated programs (QueryGen focus partitioned) x TLC-enumerated partition layouts (every cut of the rows into <= 4 partitions incl. empty ones, known/unknown divisions); TLC validates every layout's result against pandas on the concatenated input under the spec's acceptance relation",
+    text="Every depth-1 program over the partition-sensitive operator families (reductions, groupby aggregations, joins of all kinds, concat, sort / set_index, cumulative, shift / diff / ffill, drop_duplicates / unique / value_counts / nlargest, aligned column arithmetic) is executed under EVERY layout TLC enumerates for a small table (all non-decreasing cut sequences, so empty partitions at the front, middle and end are included), deeper programs under seeded layouts, with an independently partitioned second input. TLC accepts a result only if it has the reference's schema and rows (as a sequence where the specification defines the order, else as a bag; index labels where defined; sortedness for top-level sorts) or is an explicit refusal the specification names for window operations.",
+    note="Trusted: TLC; pandas as the definition of the expected value (the property's own wording); float64 columns with NaN as NULL. groupby apply/transform, rolling, resample, merge_asof, loc are not yet in the program space.",
+    design="5.1 C02"),
 }
 
 def main():
